@@ -6,6 +6,7 @@ From ClapModel Require Import Base.Bytes Base.Utf8 Escape.EscapeModel Escape.She
 Extraction Language OCaml.
 Separate Extraction
   BinInt.Z.of_N Utf8.utf8_valid Utf8.decode Utf8.utf8_encode
+  EscapeModel.replace EscapeModel.apply_chain
   EscapeModel.fish_escape_string EscapeModel.fish_escape_help EscapeModel.fish_escape_double_quoted
   EscapeModel.fish_possible_value_help
   EscapeModel.zsh_escape_help EscapeModel.zsh_escape_value EscapeModel.zsh_positional_help
